@@ -35,10 +35,12 @@ def cases(tier, seed):
     if tier == 'quick':
         base = designs.op_cases([1, 3], ops='w+-*<xcsm', mul_max=3) + designs.op_cases([3], ops='w+', dests=('reg',))
         base += [dict(c, reset=5 % (1 << c['wd'])) for c in designs.op_cases([3], ops='w', dests=('reg',))]
+        base += [dict(c, reset=0) for c in designs.op_cases([1, 3], ops='w+', dests=('reg',))]
         base += designs.expr_cases(20, seed, n=6, maxw=4) + designs.seq_cases() + designs.misc_cases()[:10]
     else:
         base = designs.op_cases([1, 2, 3, 4, 8], ops='w~&|^n+-*<>=xcsm', mul_max=4) + designs.op_cases([1, 3, 8], ops='w+-', dests=('reg',))
         base += [dict(c, reset=(1 << c['wd']) - 1) for c in designs.op_cases([1, 3, 8], ops='w', dests=('reg',))]
+        base += [dict(c, reset=0) for c in designs.op_cases([1, 3, 8], ops='w+x', dests=('reg',))]
         base += designs.expr_cases(100, seed, n=8, maxw=5) + designs.seq_cases(widths=(1, 4, 8)) + designs.misc_cases()
     for i, c in enumerate(base):
         for f in FUNCS:
@@ -56,7 +58,8 @@ def fingerprint(b):
                    id(n.op_param[1].data) if isinstance(n.op_param[1], RomBlock) else None)
                   for n in b.logic_subset('m@'))
     byname = sorted((k, id(v)) for k, v in b.wirevector_by_name.items())
-    return (wires, nets, mems, byname)
+    membyname = sorted((k, id(v)) for k, v in getattr(b, 'memblock_by_name', {}).items())
+    return (wires, nets, mems, byname, membyname)
 
 
 def call(case, A):
@@ -166,12 +169,28 @@ def run_case(case, ob, tier):
     amems = {id(n.op_param[1]) for n in A.logic_subset('m@')}
     bmems = {id(n.op_param[1]) for n in B.logic_subset('m@')}
     ob.fact('no-shared-memory-objects', not (amems & bmems), site + ':shared-mems')
+    # the result's memories are registered with the result (and only there)
+    bm = {n.op_param[1].name: n.op_param[1] for n in B.logic_subset('m@')}
+    ob.fact('result-memories-registered-with-result',
+            all(B.memblock_by_name.get(k) is m for k, m in bm.items()), site + ':memblock_by_name')
+    if case['func'] in ('copy', 'opt'):
+        ra = {r.name: r.reset_value for r in A.wirevector_subset(pyrtl.Register)}
+        rb = {r.name: r.reset_value for r in B.wirevector_subset(pyrtl.Register)}
+        ob.fact('register-reset-values-preserved', all(rb.get(k, v_) == v_ for k, v_ in ra.items() if k in rb),
+                site + ':reset_value', detail=[ra, rb])
     after = trace_of(A, K, v, assume)
     ob.paths += len(before) + len(after)
     same_trace(ob, A, before, after, assume, v, site + ':source-after-call')
     # result behaves like the source (reset values and ROM contents count)
     pair, mk = make_pair(case, A, B)
     equiv.bmc_outputs(ob, pair, K, v, site + ':result-vs-source:bmc-from-reset', reg_init='reset', memkeyB=mk, assume=assume)
+    # an explicit reset_value (including 0) must win over a non-zero default_value in the copy as in the source
+    regsA = A.wirevector_subset(pyrtl.Register)
+    # (a register WITHOUT reset_value takes Simulation's default_value, which a synthesized block applies per bit:
+    #  that is a Simulation parameter, not block behaviour, so it is only compared for copy/optimize)
+    if regsA and (case['func'] in ('copy', 'opt') or all(r.reset_value is not None for r in regsA)):
+        equiv.bmc_outputs(ob, pair, 2, v, site + ':result-vs-source:bmc-from-reset(default_value=1)', reg_init='reset',
+                          default_value=1, memkeyB=mk, assume=assume, compare_mems=False)
     if case['func'] != 'opt':
         v2 = Vars('s_')
         sp2 = spec.run(A, 1, v2, reg_init='sym', mem_init='sym')
@@ -221,7 +240,12 @@ def replay(cex):
                   'result-is-a-different-block': B is not A,
                   'no-shared-wire-objects': not (set(map(id, A.wirevector_set)) & set(map(id, B.wirevector_set))),
                   'no-shared-memory-objects': not ({id(n.op_param[1]) for n in A.logic_subset('m@')}
-                                                   & {id(n.op_param[1]) for n in B.logic_subset('m@')})}
+                                                   & {id(n.op_param[1]) for n in B.logic_subset('m@')}),
+                  'result-memories-registered-with-result': all(
+                      B.memblock_by_name.get(n.op_param[1].name) is n.op_param[1] for n in B.logic_subset('m@')),
+                  'register-reset-values-preserved': all(
+                      {r.name: r.reset_value for r in B.wirevector_subset(pyrtl.Register)}.get(r.name, r.reset_value) == r.reset_value
+                      for r in A.wirevector_subset(pyrtl.Register))}
         name = cex['obligation']
         if name in checks:
             return (not checks[name]), '%s: %s on the real code (working block is %s)' % (
@@ -236,6 +260,7 @@ def replay(cex):
         ta, _, _ = __import__('vf.concrete', fromlist=['x']).sim_concrete(A, case['K'], cex['model'], reg_init='reset', track='io')
         apply_edit(case, A, B)
     step = ':step' in site
-    differs, text = equiv.replay_pair(pair, 1 if step else case['K'], cex.get('model', {}),
-                                      reg_init='sym' if step else 'reset', memkeyB=mk)
+    dv = 1 if 'default_value=1' in site else 0
+    differs, text = equiv.replay_pair(pair, 1 if step else (2 if dv else case['K']), cex.get('model', {}),
+                                      reg_init='sym' if step else 'reset', memkeyB=mk, default_value=dv)
     return differs, 'case=%r\n%s' % (case, text)
